@@ -172,7 +172,7 @@ func c16Client(c *fw.Ctx, cs c16Case) {
 	}
 	stop := time.Now().Add(runFor)
 	var wg sync.WaitGroup
-	var okN, failN, slowN int64
+	var okN, failN, slowN, cancelledN int64
 	var firstErr atomic.Value
 	for g := 0; g < cs.Callers; g++ {
 		g := g
@@ -198,6 +198,18 @@ func c16Client(c *fw.Ctx, cs c16Case) {
 			}
 		}()
 	}
+	// one caller whose requests never get as far as the wire: its contexts have ended before it calls
+	wg.Add(1)
+	go func() {
+		defer wg.Done()
+		for k := 0; time.Now().Before(stop); k++ {
+			x, xc := context.WithCancel(ctx)
+			xc()
+			sc.SendRequest(x, &ua.ReadRequest{NodesToRead: []*ua.ReadValueID{{NodeID: ua.NewStringNodeID(1, "cancelled"), AttributeID: ua.AttributeIDValue, DataEncoding: &ua.QualifiedName{}}}}, nil, func(ua.Response) error { return nil })
+			atomic.AddInt64(&cancelledN, 1)
+			time.Sleep(time.Duration(5+k%7) * time.Millisecond)
+		}
+	}()
 	// one caller whose request stays outstanding across a renewal, like the Publish request of an idle subscription
 	wg.Add(1)
 	go func() {
@@ -220,8 +232,16 @@ func c16Client(c *fw.Ctx, cs c16Case) {
 			atomic.AddInt64(&slowN, 1)
 		}
 	}()
-	wg.Wait()
+	// every caller comes back: requests have timeouts of 3 s (8 s for the long one), nothing may wait for good
+	allDone := make(chan struct{})
+	go func() { wg.Wait(); close(allDone) }()
+	if !fw.WaitBeats(allDone, int64(runFor/time.Millisecond)+30000) {
+		cs.Detail = fmt.Sprintf("callers are still inside SendRequest %d heartbeats after the workload ended (tokens of %d ms, %d renewals seen by the peer)\n%s", int64(runFor/time.Millisecond)+30000, cs.LifetimeMS, func() int { mu.Lock(); defer mu.Unlock(); return len(issues) - 1 }(), blockedDumpN(8000))
+		c.Violation("c16:requests-blocked-for-good", cs.Detail, cs)
+		return
+	}
 	c.Class("client:requests-outstanding-across-a-renewal", atomic.LoadInt64(&slowN))
+	c.Class("client:requests-cancelled-before-sending", atomic.LoadInt64(&cancelledN))
 	mu.Lock()
 	iss := append([]c16Issue{}, issues...)
 	mu.Unlock()
